@@ -361,8 +361,7 @@ Lemma cmd_boundary_fold_cons k mt u r :
   cmd_boundary_fold k mt (u :: r)
   = cmd_head_boundary k mt u || cmd_boundary_fold k (cmd_flag_after k mt u) r.
 Proof.
-  destruct u; cbn [cmd_boundary_fold cmd_head_boundary cmd_flag_after orb]; try reflexivity.
-  destruct (mkey_eqb (cmd_membership_key slot c) k && negb (c_tombstone c) && mt); reflexivity.
+  destruct u; cbn [cmd_boundary_fold cmd_head_boundary cmd_flag_after orb]; reflexivity.
 Qed.
 
 Lemma cmd_flag_after_mono k mt u : mt = true -> cmd_flag_after k mt u = true.
@@ -409,26 +408,26 @@ Proof.
     pose proof (cmd_upsert_row st slot c k) as Hrow. cbn [mut_apply] in Hrow. rewrite Hrow.
     cbn [cmd_head_boundary cmd_flag_after] in *.
     destruct (mkey_eqb (cmd_membership_key slot c) k) eqn:E; cbn [andb] in *.
-    2:{ exists r. repeat split; auto. }
+    2:{ exists r. split; [exact Hg|]. split; [exact Hack|exact Hmt]. }
     rewrite Hg. pose proof (resolve_cmd_spec r c) as Spec. cbv zeta in Spec.
     destruct Spec as [(T1 & T2) | (A & T)].
     + exfalso. rewrite (Hmt T1), T2 in Hhb. discriminate.
     + eexists. split; [reflexivity|]. split; [lia|]. intro C. rewrite T in C. exact (Hmt C).
-  - eapply cmd_mutate_step; eauto.
-    + apply cmdAdvanceAckShard_ok.
-    + intros row C. left. exact C.
-  - eapply cmd_mutate_step; eauto.
-    + apply cmdAdvanceAckBatch_ok.
-    + intros row C. left. unfold cmdAdvanceAckBatch in C.
-      destruct (c_ack_seq row <? c_ack_seq c); [m_cbn; exact C|exact C].
-  - eapply cmd_mutate_step with (mt' := cmd_flag_after k mt (MCmdTombstoneShard k0 tombstoneAt)); eauto.
-    + apply cmdTombstone_ok.
-    + apply cmd_flag_after_mono.
-    + intros row _. right. intro E. cbn [cmd_flag_after]. rewrite E. apply orb_true_r.
-  - eapply cmd_mutate_step with (mt' := cmd_flag_after k mt (MCmdTombstoneBatch slot c)); eauto.
-    + apply cmdTombstone_ok.
-    + apply cmd_flag_after_mono.
-    + intros row _. right. intro E. cbn [cmd_flag_after]. rewrite E. apply orb_true_r.
+  - cbn [cmd_flag_after].
+    apply (cmd_mutate_step k a st k0 _ r mt mt (cmdAdvanceAckShard_ok ackSeq updatedAt) Hg Hack Hmt (fun C => C)).
+    intros row C. left. exact C.
+  - cbn [cmd_flag_after].
+    apply (cmd_mutate_step k a st (cmd_membership_key slot c) _ r mt mt
+             (cmdAdvanceAckBatch_ok (c_ack_seq c) (c_updated_at c)) Hg Hack Hmt (fun C => C)).
+    intros row C. left. unfold cmdAdvanceAckBatch in C.
+    destruct (c_ack_seq row <? c_ack_seq c); [m_cbn; exact C|exact C].
+  - apply (cmd_mutate_step k a st k0 _ r mt (cmd_flag_after k mt (MCmdTombstoneShard k0 tombstoneAt))
+             (cmdTombstone_ok tombstoneAt tombstoneAt) Hg Hack Hmt (cmd_flag_after_mono k mt _)).
+    intros row _. right. intro E. cbn [cmd_flag_after]. rewrite E. apply orb_true_r.
+  - apply (cmd_mutate_step k a st (cmd_membership_key slot c) _ r mt
+             (cmd_flag_after k mt (MCmdTombstoneBatch slot c))
+             (cmdTombstone_ok (c_tombstone_at c) (c_updated_at c)) Hg Hack Hmt (cmd_flag_after_mono k mt _)).
+    intros row _. right. intro E. cbn [cmd_flag_after]. rewrite E. apply orb_true_r.
 Qed.
 
 Lemma cmd_boundary_fold_sound k a : forall us st st' r mt,
